@@ -1035,6 +1035,11 @@ def run(ctx):
     ctx.guarded(r, r1b_truth_tables)
     r = ctx.rule("R2", "constructors build their namesake opcode in operand order; folding uses the opcode's eval; nodes are interned", 35)
     ctx.guarded(r, r2_namesakes)
+    # constant folding is `op.eval(a, b)`: the folded constant is right only if eval is the opcode's meaning
+    from .C01 import r_reference_eval
+
+    r = ctx.rule("R2b", "the opcode evaluators that constant folding applies compute their namesake operator", 30)
+    ctx.guarded(r, r_reference_eval)
     r = ctx.rule("R3", "import/export push and pop operands in matching order and rebuild with the same opcode", 21)
     ctx.guarded(r, r3_stack_discipline)
     r = ctx.rule("R6", "TreeOp eq / hash cover the same payload, walk the same children; drop is iterative", 32)
